@@ -15,6 +15,8 @@ mod c01;
 mod c02;
 mod c04;
 #[cfg(feature = "model")]
+mod c03;
+#[cfg(feature = "model")]
 mod c05;
 #[cfg(feature = "model")]
 mod c06;
@@ -54,6 +56,12 @@ fn main() {
         "c02" => c02::run(&args),
         "c04" => c04::run(&args),
         #[cfg(feature = "model")]
+        "miriprep" => miriprep(&args),
+        #[cfg(feature = "model")]
+        "c03" => c03::run(&args),
+        #[cfg(feature = "model")]
+        "c03case" => c03::run_case_file(&args),
+        #[cfg(feature = "model")]
         "c05" => c05::run(&args),
         #[cfg(feature = "model")]
         "c05child" => c05::run_child(&args),
@@ -83,4 +91,47 @@ fn main() {
         }
     };
     std::process::exit(code);
+}
+
+/// write small valid frames (with their content) and hostile plans for the Miri monitor
+#[cfg(feature = "model")]
+fn miriprep(args: &common::Args) -> i32 {
+    use std::fmt::Write as _;
+    let mut text = String::new();
+    for c in frames::synth_matrix().iter() {
+        if c.bytes.len() <= 700 && c.expected.len() <= 2500 && c.dict.is_none() {
+            let _ = writeln!(text, "V {} {} {}", common::hex(c.origin.as_bytes()), common::hex(&c.bytes), common::hex(&c.expected));
+        }
+    }
+    let mut r = common::Rng::for_case(args.seed, 77, 0);
+    let mut n = 0;
+    while n < 150 {
+        if let Some(c) = frames::synth_random(&mut r, 1500) {
+            if c.bytes.len() <= 1500 {
+                let _ = writeln!(text, "V {} {} {}", common::hex(b"random plan"), common::hex(&c.bytes), common::hex(&c.expected));
+                n += 1;
+            }
+        }
+    }
+    for _ in 0..60 {
+        let c = frames::libzstd_frame(&mut r, 2000);
+        if c.bytes.len() <= 1500 {
+            let _ = writeln!(text, "V {} {} {}", common::hex(b"libzstd"), common::hex(&c.bytes), common::hex(&c.expected));
+        }
+    }
+    for (_, p) in zspec::synth::hostile_matrix() {
+        let b = zspec::synth::synthesise(&p).bytes;
+        if b.len() <= 700 {
+            let _ = writeln!(text, "H {}", common::hex(&b));
+        }
+    }
+    match &args.out {
+        Some(o) => {
+            if let Some(parent) = std::path::Path::new(o).parent() {
+                let _ = std::fs::create_dir_all(parent);
+            }
+            std::fs::write(o, text).map(|_| 0).unwrap_or(2)
+        }
+        None => 2,
+    }
 }
